@@ -179,8 +179,12 @@ def gen_imports(add):
     if [a.arg for a in ex.args.posonlyargs] != ["data_rows", "frequency", "column", "period_from_string", "start_period_only"]:
         raise TranslatorError("_extract_periods_from_data_rows: parameters changed")
     b = px.strip_doc(ex)
+    # an optional leading guard for a sheet without data rows (fix: 2ce6618): no rows, no periods -- the same answer the
+    # modelled statements give for an empty list of rows (the unguarded code raised IndexError on data_rows[0] there)
+    if len(b) == 5 and ast.unparse(b[0]) == "if not data_rows:\n    return ((), ())":
+        b = b[1:]
     if len(b) != 4:
-        raise TranslatorError(f"_extract_periods_from_data_rows: expected 4 statements, found {len(b)}")
+        raise TranslatorError(f"_extract_periods_from_data_rows: expected 4 statements (after the optional empty-sheet guard), found {len(b)}")
     _expect(b[0], "start_date = period_from_string(data_rows[0][column], frequency=frequency)", "_extract_periods_from_data_rows[0]")
     # the extractor table
     st = b[1]
